@@ -70,6 +70,16 @@ def run_jobs(jobs, seed=0, nproc=None):
             outs = [_worker(a) for a in args]
         finally:
             sys.stdout = real
+    elif os.environ.get('VERIF_FAST_FAIL'):
+        # detection sweeps only (tools/mutsweep.py): stop as soon as one job has found a violation
+        ctx = mp.get_context('fork')
+        with ctx.Pool(nproc) as pool:
+            for o in pool.imap_unordered(_worker, args, chunksize=1):
+                outs.append(o)
+                if o.get('violations') or not o.get('ok'):
+                    pool.terminate()
+                    break
+        return outs
     else:
         ctx = mp.get_context('fork')
         with ctx.Pool(nproc) as pool:
